@@ -93,6 +93,32 @@ def run(ctx):
                         "the classifier looks at the fixed-offset neighbour `%s`: whitespace, a line break or a comment between the two tokens changes what it sees" % norm(x),
                         fi.loc(x),
                     )
+    # look-ahead helpers that compare *adjacent* list positions (advance by one without a skip helper) are the same
+    # hazard behind a function call: derived by shape, then who-may-call - nobody in the classifier scope
+    adjacent = {}
+    for fi in p.functions.values():
+        if fi.module.name != "vsg.vhdlFile.utils" or fi.cls is not None:
+            continue
+        loops = [n for n in walk_function(fi.node) if isinstance(n, (ast.While, ast.For))]
+        if not loops or len(fi.params) < 3:
+            continue
+        idx_subs = [n for n in walk_function(fi.node) if isinstance(n, ast.Subscript) and isinstance(n.slice, ast.Name) and norm(n.value) in fi.params and not isinstance(n.slice, ast.Slice)]
+        steps = [n for n in walk_function(fi.node) if isinstance(n, ast.AugAssign) and isinstance(n.op, ast.Add) and isinstance(n.value, ast.Constant) and n.value.value == 1]
+        skips = [n for n in walk_function(fi.node) if isinstance(n, ast.Call) and (norm(n.func).startswith("find_next") or norm(n.func).startswith("find_previous"))]
+        takes_types = any(isinstance(n, ast.Call) and norm(n.func) == "isinstance" and len(n.args) == 2 and isinstance(n.args[1], ast.Subscript) for n in walk_function(fi.node))
+        if idx_subs and steps and not skips and takes_types and any(norm(s.target) == norm(x.slice) for s in steps for x in idx_subs):
+            adjacent[fi.name] = fi
+    r.extra["adjacent_lookahead_helpers"] = sorted(adjacent)
+    if "are_next_consecutive_token_types" not in adjacent:
+        raise AnalysisError("the exact-adjacency look-ahead helper is no longer recognised by shape (found %s)" % sorted(adjacent))
+    for fi in sorted(p.functions.values(), key=lambda f: f.key):
+        if not _in_scope(fi) or fi.name in adjacent:
+            continue
+        for x in walk_function(fi.node):
+            if isinstance(x, ast.Call) and norm(x.func).split(".")[-1] in adjacent:
+                kk = "%s:%s" % (fi.key, norm(x))
+                n_sites += 1
+                r.fail("C05.neighbour", kk, "the classifier uses the exact-adjacency look-ahead `%s`: it matches a fixed sequence of list positions, so whitespace, a line break or a comment between the tokens changes what it sees (the `_ignoring_whitespace` variant skips them)" % norm(x)[:70], fi.loc(x))
     r.extra["neighbour_sites"] = n_sites
     if n_sites < 10:
         raise AnalysisError("only %d neighbour-index sites found (expected ~21): enumeration broken" % n_sites)
@@ -230,6 +256,8 @@ def _skip_classes(p, fi, test, plain_names):
 
 
 VARIANTS = [
+    Variant("C05", "name detection matches `(` only directly or after one whitespace token", "fire",
+            [("vsg/vhdlFile/vhdlFile.py", "        if utils.are_next_consecutive_token_types_ignoring_whitespace([parser.open_parenthesis], iToken + 1, lTokens):\n            lTokens[iToken] = oToken.convert_to(todo.name)", "        if utils.are_next_consecutive_token_types([parser.open_parenthesis], iToken + 1, lTokens) or utils.are_next_consecutive_token_types([parser.whitespace, parser.open_parenthesis], iToken + 1, lTokens):\n            lTokens[iToken] = oToken.convert_to(todo.name)")], rule="C05.neighbour"),
     Variant("C05", "look-behind helper that stops at comments", "fire",
             [("vsg/vhdlFile/utils.py", "def find_previous_non_whitespace_token(iToken, lObjects):\n    iCurrent = iToken\n    for iIndex in range(iToken, -1, -1):\n        oToken = lObjects[iIndex]\n        if token_is_whitespace_or_comment(oToken):",
               "def find_previous_non_whitespace_token(iToken, lObjects):\n    iCurrent = iToken\n    for iIndex in range(iToken, -1, -1):\n        oToken = lObjects[iIndex]\n        if token_is_whitespace(oToken):")],
